@@ -1,5 +1,6 @@
 import PEval.Lemmas.LookupArith
 import PEval.Lemmas.LookupTable
+import PEval.Lemmas.LookupLin
 import PEval.Lemmas.LookupTotal
 import PEval.Gen.LookupTables
 import Mathlib.Tactic.FieldSimp
@@ -46,8 +47,9 @@ theorem getNow_spec (fs : List Frame) (t thr : Int) (ht : t ≤ maxTime) (hne : 
       rw [if_neg hthr]
       exact ⟨_, rfl, hmem, hmin, by omega⟩
 
-/-- Among frames at the same minimal distance the first one in list order is returned: every
-frame before the returned one is strictly farther. -/
+/-- About the MODEL only (today's scan; the property leaves the choice among equidistant frames open and
+nothing about the code is derived from this): among frames at the same minimal distance the first one
+in list order is returned: every frame before the returned one is strictly farther. -/
 theorem getNow_first_tie (fs : List Frame) (t thr : Int) (f : Frame)
     (h : getNowFrame fs t thr = .ok (some f)) :
     ∃ pre post, fs = pre ++ f :: post ∧ ∀ g ∈ pre, absDt t f < absDt t g := by
@@ -74,7 +76,8 @@ theorem getNow_first_tie (fs : List Frame) (t thr : Int) (f : Frame)
           · exact hlt
           · exact hpre g hg'
 
-/-- the two error branches: the nano-second guard and the empty list -/
+/-- About the MODEL only (inputs outside the property's quantifier; the code's table is not held to
+these classes): the two error branches, the nano-second guard and the empty list -/
 theorem getNow_errors (fs : List Frame) (t thr : Int) :
     (maxTime < t → getNowFrame fs t thr = .error "DatasetLoadingError") ∧
     (t ≤ maxTime → getNowFrame [] t thr = .error "IndexError") := by
@@ -559,67 +562,133 @@ end Examples
 `Gen.getNowTrees` / `Gen.getInterpTrees` hold, for frame lists of length 0..3, the complete decision
 tree of the REAL `get_now_frame` / `get_interpolated_now_frame` over three-valued order atoms
 (`harness/dt_c17.py`).  This is a BOUNDED skeleton (up to three frames); the unbounded statements are
-the theorems above about the model, and `getNowFrame_eq_atoms` / `getInterpolated_eq_atoms` tie the
-model to its atom skeleton for every length.  Atoms of different linear forms are treated as
-independent: the theorems below quantify over ALL valuations, a superset of the realisable ones.
-An empty table list means the translator reported `untranslatable` (recorded in the evidence). -/
+the theorems above about the model.
+
+What is demanded of the code's table is what the property says and no more ("returns the loaded frame
+closest in time if it is within the tolerance and nothing otherwise", "all time-ordered frame lists"):
+
+* `get_now_frame`: on every NON-DECREASING list of stamps, every query time `q ≤ 10^17` and every
+  tolerance the table answers with SOME frame of minimal `|dt|` that lies within the tolerance, or with
+  nothing when every frame is farther (`LookupDT.NowSpec`).  Which of several equidistant frames is
+  returned, which linear forms the code compares (`|dt|` differences, `q - t i`, a bisection), what it
+  does on lists that are not time-ordered, on the empty list and beyond the unit guard is NOT part
+  of the obligation (the first-of-ties behaviour of today's code is `getNow_first_tie`, a theorem
+  about the MODEL only).
+* `get_interpolated_now_frame`: on every STRICTLY INCREASING list of stamps the table reaches the
+  leaf of the model's skeleton (there the neighbours and hence the answer are determined).
+
+Both are decided by `LookupDT.nowTableOk` / `eqTableOk` (integer linear arithmetic on the paths of the
+tree, `PEval/Model/LookupLin.lean`, sound by `PEval/Lemmas/LookupLin.lean`).  An empty table list
+means the translator reported `untranslatable` (recorded in the evidence). -/
 
 section Tables
 open PEval.LookupDT
 
-/-- every row of the code's table of `get_now_frame` is the model's skeleton, on EVERY valuation -/
-theorem getNow_code_table_eq_model :
-    ∀ p ∈ Gen.getNowTrees, ∀ v : Valuation, evalTree p.2 v = getNowAtoms p.1 v := by
-  intro p hp v
-  rw [← evalTree_getNowSkel]
-  exact tableOk_sound (by decide +kernel : tableOk Gen.getNowTrees getNowSkel = true) p hp v
+/-- PER-RUN OBLIGATION for `get_now_frame`: every row of the code's table answers, on every
+non-decreasing non-empty list of stamps, with an arg-min of `|dt|` within the tolerance or with
+nothing when there is none (ANY arg-min: ties are left open, as in the property) -/
+theorem getNow_code_table_argmin :
+    ∀ p ∈ Gen.getNowTrees, ∀ (ts : List Int) (q tol : Int), ts.length = p.1 → ts ≠ [] → q ≤ maxTime →
+      ts.Pairwise (fun a b => a ≤ b) → NowSpec ts q tol (evalTree p.2 (valuationOf ts q tol)) :=
+  nowTableOk_sound (by decide +kernel : nowTableOk Gen.getNowTrees = true)
 
-/-- every row of the code's table of `get_interpolated_now_frame` is the model's skeleton -/
+/-- PER-RUN OBLIGATION for `get_interpolated_now_frame`: every row of the code's table reaches the leaf
+of the model's skeleton on every strictly increasing list of stamps -/
 theorem getInterp_code_table_eq_model :
-    ∀ p ∈ Gen.getInterpTrees, ∀ v : Valuation, evalTree p.2 v = getInterpAtoms p.1 v := by
-  intro p hp v
+    ∀ p ∈ Gen.getInterpTrees, ∀ (ts : List Int) (q tol : Int), ts.length = p.1 →
+      ts.Pairwise (fun a b => a < b) →
+      evalTree p.2 (valuationOf ts q tol) = getInterpAtoms p.1 (valuationOf ts q tol) := by
+  intro p hp ts q tol hn hs
   rw [← evalTree_getInterpSkel]
-  exact tableOk_sound (by decide +kernel : tableOk Gen.getInterpTrees getInterpSkel = true) p hp v
+  exact eqTableOk_sound (by decide +kernel : eqTableOk Gen.getInterpTrees getInterpSkel = true) p hp ts q tol hn hs
 
-/-- the code's table, read on the valuation of a concrete frame list, is the model's `getNowFrame` -/
-theorem getNow_code_table_eq_getNowFrame (fs : List Frame) (q tol : Int) :
-    ∀ p ∈ Gen.getNowTrees, p.1 = fs.length →
-      decodeNow fs (evalTree p.2 (valuationOf (times fs) q tol)) = getNowFrame fs q tol := by
-  intro p hp hn
-  rw [getNow_code_table_eq_model p hp, hn, ← getNowFrame_eq_atoms]
+theorem absI_times (fs : List Frame) (q : Int) (j : Nat) (hj : j < fs.length) :
+    absI (times fs) q j = (absDt q fs[j] : Int) := by
+  unfold absI absDt
+  rw [times_getD fs j fs[j] (by simp [hj])]
 
-/-- the code's table, read on the valuation of a concrete frame list, is the model's
-`getInterpolated` (`interp i j` decoding to the interpolation of frames `i`, `j` at the query time) -/
-theorem getInterp_code_table_eq_getInterpolated (fs : List Frame) (q tol : Int) :
-    ∀ p ∈ Gen.getInterpTrees, p.1 = fs.length →
-      decodeInterp fs q (evalTree p.2 (valuationOf (times fs) q tol)) = getInterpolated fs q tol := by
-  intro p hp hn
-  rw [getInterp_code_table_eq_model p hp, hn, ← getInterpolated_eq_atoms]
+theorem times_pairwise_le {fs : List Frame} (hs : fs.Pairwise (fun x y => x.time ≤ y.time)) :
+    (times fs).Pairwise (fun a b => a ≤ b) := by
+  unfold times; exact List.pairwise_map.2 hs
 
-/-- `getNow_spec` for what the CODE's table says: the answer is a frame of the list minimising
-`|dt|` within the tolerance, or nothing exactly when every frame is farther than the tolerance. -/
-theorem getNow_code_table_spec (fs : List Frame) (q tol : Int) (ht : q ≤ maxTime) (hne : fs ≠ []) :
+theorem times_pairwise_lt {fs : List Frame} (hs : fs.Pairwise (fun x y => x.time < y.time)) :
+    (times fs).Pairwise (fun a b => a < b) := by
+  unfold times; exact List.pairwise_map.2 hs
+
+/-- `getNow_spec` for what the CODE's table says, on time-ordered lists: the answer is a frame of the
+list minimising `|dt|` within the tolerance, or nothing exactly when every frame is farther than the
+tolerance. -/
+theorem getNow_code_table_spec (fs : List Frame) (q tol : Int) (ht : q ≤ maxTime) (hne : fs ≠ [])
+    (hs : fs.Pairwise (fun x y => x.time ≤ y.time)) :
     ∀ p ∈ Gen.getNowTrees, p.1 = fs.length →
       (∃ f, decodeNow fs (evalTree p.2 (valuationOf (times fs) q tol)) = .ok (some f) ∧ f ∈ fs ∧
           (∀ g ∈ fs, absDt q f ≤ absDt q g) ∧ (absDt q f : Int) ≤ tol) ∨
       (decodeNow fs (evalTree p.2 (valuationOf (times fs) q tol)) = .ok none ∧
           ∀ g ∈ fs, tol < (absDt q g : Int)) := by
   intro p hp hn
-  rw [getNow_code_table_eq_getNowFrame fs q tol p hp hn]
-  exact getNow_spec fs q tol ht hne
+  have hlen : (times fs).length = fs.length := by simp [times]
+  have hspec := getNow_code_table_argmin p hp (times fs) q tol (by rw [hlen, hn])
+    (by intro h; apply hne; simpa [times] using h) ht (times_pairwise_le hs)
+  generalize evalTree p.2 (valuationOf (times fs) q tol) = r at hspec
+  cases r with
+  | none =>
+    right
+    refine ⟨rfl, ?_⟩
+    intro g hg
+    obtain ⟨j, hj, rfl⟩ := List.getElem_of_mem hg
+    have := hspec j (by rw [hlen]; exact hj)
+    rw [absI_times fs q j hj] at this
+    exact this
+  | frame k =>
+    left
+    obtain ⟨hk, hmin, htol⟩ := hspec
+    rw [hlen] at hk
+    refine ⟨fs[k], by simp [decodeNow, hk], List.getElem_mem hk, ?_, ?_⟩
+    · intro g hg
+      obtain ⟨j, hj, rfl⟩ := List.getElem_of_mem hg
+      have := hmin j (by rw [hlen]; exact hj)
+      rw [absI_times fs q j hj, absI_times fs q k hk] at this
+      exact_mod_cast this
+    · rw [absI_times fs q k hk] at htol
+      exact htol
+  | interp i j => exact hspec.elim
+  | err k => exact hspec.elim
 
-/-- first-of-ties for the code's table -/
-theorem getNow_code_table_first_tie (fs : List Frame) (q tol : Int) (f : Frame) :
+/-- the code's table and the MODEL agree up to the choice among equidistant frames: both answer
+nothing, or both answer a frame of the list and the two frames are equally far from the query -/
+theorem getNow_code_table_eq_model_mod_ties (fs : List Frame) (q tol : Int) (ht : q ≤ maxTime) (hne : fs ≠ [])
+    (hs : fs.Pairwise (fun x y => x.time ≤ y.time)) :
     ∀ p ∈ Gen.getNowTrees, p.1 = fs.length →
-      decodeNow fs (evalTree p.2 (valuationOf (times fs) q tol)) = .ok (some f) →
-      ∃ pre post, fs = pre ++ f :: post ∧ ∀ g ∈ pre, absDt q f < absDt q g := by
-  intro p hp hn h
-  rw [getNow_code_table_eq_getNowFrame fs q tol p hp hn] at h
-  exact getNow_first_tie fs q tol f h
+      (decodeNow fs (evalTree p.2 (valuationOf (times fs) q tol)) = .ok none ∧ getNowFrame fs q tol = .ok none) ∨
+      (∃ f g, decodeNow fs (evalTree p.2 (valuationOf (times fs) q tol)) = .ok (some f) ∧
+          getNowFrame fs q tol = .ok (some g) ∧ f ∈ fs ∧ g ∈ fs ∧ absDt q f = absDt q g) := by
+  intro p hp hn
+  rcases getNow_code_table_spec fs q tol ht hne hs p hp hn with ⟨f, hf, hfm, hfmin, hftol⟩ | ⟨hnone, hfar⟩
+  · rcases getNow_spec fs q tol ht hne with ⟨g, hg, hgm, hgmin, _⟩ | ⟨_, hfar⟩
+    · right
+      have h1 := hfmin g hgm
+      have h2 := hgmin f hfm
+      exact ⟨f, g, hf, hg, hfm, hgm, by omega⟩
+    · have := hfar f hfm; omega
+  · rcases getNow_spec fs q tol ht hne with ⟨g, _, hgm, _, hgtol⟩ | ⟨hnone', _⟩
+    · have := hfar g hgm; omega
+    · left; exact ⟨hnone, hnone'⟩
+
+/-- the code's table, read on the valuation of a concrete strictly time-ordered frame list, is the
+model's `getInterpolated` (`interp i j` decoding to the interpolation of frames `i`, `j` at the query
+time) -/
+theorem getInterp_code_table_eq_getInterpolated (fs : List Frame) (q tol : Int)
+    (hs : fs.Pairwise (fun x y => x.time < y.time)) :
+    ∀ p ∈ Gen.getInterpTrees, p.1 = fs.length →
+      decodeInterp fs q (evalTree p.2 (valuationOf (times fs) q tol)) = getInterpolated fs q tol := by
+  intro p hp hn
+  rw [getInterp_code_table_eq_model p hp (times fs) q tol (by simp [times, hn]) (times_pairwise_lt hs), hn,
+    ← getInterpolated_eq_atoms]
 
 /-- `gating` for what the CODE's table says: the outcome is decided by which neighbours of the scan
 survive the tolerance test. -/
-theorem getInterp_code_table_gating (fs : List Frame) (q tol : Int) :
+theorem getInterp_code_table_gating (fs : List Frame) (q tol : Int)
+    (hs : fs.Pairwise (fun x y => x.time < y.time)) :
     ∀ p ∈ Gen.getInterpTrees, p.1 = fs.length →
       decodeInterp fs q (evalTree p.2 (valuationOf (times fs) q tol)) =
         match gate tol (neighbours fs q).dtBefore (neighbours fs q).before,
@@ -632,18 +701,19 @@ theorem getInterp_code_table_gating (fs : List Frame) (q tol : Int) :
           | .error k => .error k
           | .ok f => .ok (.interp f) := by
   intro p hp hn
-  rw [getInterp_code_table_eq_getInterpolated fs q tol p hp hn]
+  rw [getInterp_code_table_eq_getInterpolated fs q tol hs p hp hn]
   rfl
 
 /-- no neighbour within tolerance ⇒ the code's table answers nothing (the statement seeded change
 `C17_A` breaks) -/
 theorem getInterp_code_table_none (fs : List Frame) (q tol : Int)
+    (hs : fs.Pairwise (fun x y => x.time < y.time))
     (hb : (neighbours fs q).before = none ∨ ∃ b, (neighbours fs q).before = some b ∧ tol < q - b.time)
     (ha : (neighbours fs q).after = none ∨ ∃ a, (neighbours fs q).after = some a ∧ tol < a.time - q) :
     ∀ p ∈ Gen.getInterpTrees, p.1 = fs.length →
       decodeInterp fs q (evalTree p.2 (valuationOf (times fs) q tol)) = .ok .nothing := by
   intro p hp hn
-  rw [getInterp_code_table_eq_getInterpolated fs q tol p hp hn]
+  rw [getInterp_code_table_eq_getInterpolated fs q tol hs p hp hn]
   exact gating_none fs q tol hb ha
 
 /-- non-vacuity of the skeleton side (independent of the generated file): the skeleton trees read on
